@@ -240,8 +240,14 @@ def thm_load(t0, t1):
     ctx = _sym.ctx()
     # (1) a complete document written by to_json_dict is restored
     good = [FileInfo("/data/2018/01/01/0000.nc", [t0, t1], {"v": 1}).to_json_dict()]
-    disk = Disk(ctx, {"/good.json": "doc:good", "/truncated.json": "partial:some bytes", "/wrong.json": "doc:wrong"})
-    disk.documents = {"doc:good": good, "doc:wrong": [{"path": "/x", "times": ["not a time", None]}, 17]}
+    disk = Disk(ctx, {"/good.json": "doc:good", "/truncated.json": "partial:some bytes", "/wrong.json": "doc:wrong",
+                      "/late-nokey.json": "doc:late-nokey", "/late-type.json": "doc:late-type", "/late-time.json": "doc:late-time"})
+    # malformed documents: wrong from the first entry on, or only AFTER well-formed entries (missing key, wrong type, bad time)
+    ok1 = FileInfo("/data/2018/01/02/0000.nc", [datetime(2018, 1, 2), datetime(2018, 1, 3)], {"v": 2}).to_json_dict()
+    disk.documents = {"doc:good": good, "doc:wrong": [{"path": "/x", "times": ["not a time", None]}, 17],
+                      "doc:late-nokey": [ok1, {"path": "/y", "times": ok1["times"]}],
+                      "doc:late-type": [ok1, ok1, 17],
+                      "doc:late-time": [ok1, {"path": "/z", "times": ["2018-13-45T00:00:00.000000", ok1["times"][1]], "attr": {}}]}
     ctx.ghost["c15_disk"] = disk
     ctx.ghost["warned"] = []
     fs = _fs_with_cache({"/data/already/there.nc": (datetime(2000, 1, 1), datetime(2000, 1, 2))})
@@ -259,7 +265,7 @@ def thm_load(t0, t1):
             got = fs.info_cache["/data/2018/01/01/0000.nc"]
             ensures(got.times[0] == t0, got.times[1] == t1, len(fs.info_cache) == 2, id="... and the cache is unchanged or holds exactly the genuine entries")
     # (2) missing, truncated and malformed files: a warning, no exception, no invented information
-    for bad in ("/missing.json", "/truncated.json", "/wrong.json"):
+    for bad in ("/missing.json", "/truncated.json", "/wrong.json", "/late-nokey.json", "/late-type.json", "/late-time.json"):
         fs2 = _fs_with_cache({})
         ctx.ghost["warned"] = []
         disk.faults = 1            # no further injected faults: the file content itself is the fault
